@@ -8,5 +8,5 @@ CONSTANTS
   ScriptLen = 3
   FilesLen = 2
   Tuples = {1, 3, 4}
-  Modes = {"grid", "script", "files", "mixed"}
+  Modes = {"grid", "script", "files", "mixed", "lines"}
   BandOnly = TRUE
